@@ -40,6 +40,10 @@ var faultCatalogue = []faultSpec{
 	{Name: "arith-stringfield-times-int", Cite: "must", Expr: func() *dsl.Expr { return dsl.Bin("*", dsl.Var("W.S"), i(2)) }},
 	{Name: "arith-bool-minus-int", Cite: "must", Expr: func() *dsl.Expr { return dsl.Bin("-", dsl.Bool(true), i(1)) }},
 	{Name: "arith-nested", Cite: "must", Expr: func() *dsl.Expr { return dsl.Bin("+", i(4), dsl.Bin("*", i(2), dsl.Str("q"))) }, Inner: func(r *dsl.Expr) *dsl.Expr { return r.R }},
+	// the failing operation sits inside brackets that the precedence requires
+	{Name: "arith-bracketed-sum-times", Cite: "must", Expr: func() *dsl.Expr { return dsl.Bin("*", i(2), dsl.Bin("+", i(1), dsl.Str("a"))) }, Inner: func(r *dsl.Expr) *dsl.Expr { return r.R }},
+	{Name: "div-bracketed-zero", Cite: "must", Expr: func() *dsl.Expr { return dsl.Bin("-", i(9), dsl.Bin("/", i(5), dsl.Bin("-", i(3), i(3)))) }, Inner: func(r *dsl.Expr) *dsl.Expr { return r.R }},
+	{Name: "cmp-bracketed-string-int", Cite: "must", BoolValued: true, Expr: func() *dsl.Expr { return dsl.Bin("==", dsl.Bool(true), dsl.Bin("<", dsl.Str("a"), i(1))) }, Inner: func(r *dsl.Expr) *dsl.Expr { return r.R }},
 	{Name: "div-int-zero", Cite: "must", Expr: func() *dsl.Expr { return dsl.Bin("/", i(5), i(0)) }},
 	{Name: "div-expr-zero", Cite: "must", Expr: func() *dsl.Expr { return dsl.Bin("/", dsl.Var("W.N"), dsl.Bin("-", i(3), i(3))) }},
 	{Name: "div-float-zero", Cite: "must", Expr: func() *dsl.Expr { return dsl.Bin("/", dsl.Real(2.5), dsl.Real(0)) }},
